@@ -49,7 +49,7 @@ theorem runWith_no_panic (enc : Encoder) (henc : EncLen enc) (fs : Bytes → Opt
           have := pending_close st.seg
           rw [hcs] at this
           exact fun _ x => this ▸ x
-        have g' := (good_setSeg g hc.2.1 hp).1
+        have g' := good_setSeg g hc.2.1 hp
         have fz := finalize_safe henc g'
         split
         · simp
